@@ -115,7 +115,79 @@ def _config(order):
     return _cfg, order
 
 
+def enumerate_cases(tier, seed):
+    yield {"mode": "firstbyte"}
+
+
+def _first_byte_sweep(ctx):
+    """Live sub-check, exhaustive over the 256 values of the first byte: real sockets, the repository's TLS context,
+    an echo handler class.  Plaintext lines must come back unchanged (nothing consumed by the sniff) for every first
+    byte except 0x16; a stream starting with 0x16 is taken for TLS (no echo); a real TLS client is echoed."""
+    import os
+    import socket
+    import socketserver
+    import threading
+    from pygopherd import initialization
+    import pygopherd.server
+    from pgv import live
+
+    class Echo(socketserver.StreamRequestHandler):
+        def handle(self):
+            self.wfile.write(b"ECHO:" + self.rfile.readline())
+
+    cfg = drive.make_config("/nonexistent-root", "shipped", enable_tls="yes", timeout="2",
+                            tls_certfile=os.path.join(drive.REPO, "testdata", "demo.crt"),
+                            tls_keyfile=os.path.join(drive.REPO, "testdata", "demo.key"))
+    context = initialization.init_ssl_context(cfg)
+    srv = pygopherd.server.ThreadingTCPServer(cfg, ("127.0.0.1", 0), Echo, context=context)
+    srv.handle_error = lambda *a: None  # a failed handshake (the 0x16 probe) is expected; keep stderr quiet
+    port = srv.socket.getsockname()[1]
+    th = threading.Thread(target=srv.serve_forever, kwargs={"poll_interval": 0.05}, daemon=True)
+    th.start()
+    fails = []
+    try:
+        for b in range(256):
+            line = bytes([b]) + b"rest of the first line\r\n"
+            try:
+                got = live.request(port, line + b"second line\r\n", tls=False, timeout=5)
+            except (OSError, socket.timeout) as e:
+                got = e
+            ctx.evaluations += 1
+            ctx.count("first_byte_values", 1)
+            ctx.nontriv(("firstbyte", b))
+            want = b"ECHO:" + line[: line.index(b"\n") + 1]
+            if b == 0x16:
+                if isinstance(got, bytes) and got.startswith(b"ECHO:"):
+                    fails.append(Fail("firstbyte:0x16-not-tls", "a stream starting with 0x16 was served as plaintext: %r" % got[:40]))
+            elif got != want:
+                fails.append(Fail("firstbyte:plaintext-altered", "plaintext line starting with byte 0x%02x came back as %r (want %r): "
+                                  "the TLS sniff consumed or misjudged it" % (b, got if not isinstance(got, bytes) else got[:60], want[:60])))
+        for k in range(4):
+            line = b"tls line %d\r\n" % k
+            try:
+                got = live.request(port, line, tls=True, timeout=5)
+            except (OSError, socket.timeout) as e:
+                got = e
+            ctx.evaluations += 1
+            if got != b"ECHO:" + line:
+                fails.append(Fail("firstbyte:tls-not-echoed", "a real TLS client was not served: %r" % (got,)))
+        ctx.label("firstbyte-sweep")
+        ctx.count("first_byte_sweep_exhaustive", 1)
+        ctx.sample({"first_byte_sweep": "256 plaintext first-byte values + 4 TLS connections on a live socket"}, cls="firstbyte")
+    finally:
+        srv.shutdown()
+        srv.server_close()
+    seen, out = set(), []
+    for f in fails:
+        if f.sig not in seen:
+            seen.add(f.sig)
+            out.append(f)
+    return out
+
+
 def check_case(case, ctx):
+    if case.get("mode") == "firstbyte":
+        return _first_byte_sweep(ctx)
     line, rest, tls, order = world.b(case["line"]), world.b(case["rest"]), case["tls"], case["order"]
     shipped = order == "shipped"
     cfg, order = _config(order)
